@@ -43,7 +43,10 @@ def base_types():
     from reamber.base.lists import BpmList
     from reamber.base.lists.notes import HitList, HoldList
 
-    return dict(hits=(HitList,), notes=(HitList, HoldList), bpms=(BpmList,))
+    from reamber.base.lists.notes import NoteList
+
+    # 'overlap': a list can match two of the requested types - it is still stacked once
+    return dict(hits=(HitList,), notes=(HitList, HoldList), bpms=(BpmList,), overlap=(NoteList, HitList, BpmList, BpmList))
 
 
 def full_alphabet(game):
@@ -65,6 +68,10 @@ def full_alphabet(game):
         # non-integral results (integer-typed columns of charts read from files must not truncate them)
         ops.append(("loc", mn, ("offset", "length"), "*", 1.5))
         ops.append(("loc", mn, ("offset",), "+", 0.25))
+    # array-valued assignments (row i gets +i): position-dependent, on restricted stacks with disjoint and overlapping types
+    for name in ("notes", "overlap"):
+        ops.append(("inc", name, "offset", "arange", 0))
+    ops.append(("inc", "overlap", "offset", "+", 5))
     for name in ("hits", "notes", "bpms"):
         ops.append(("inc", name, "offset", "+", 5))
         if name != "bpms":
@@ -97,6 +104,7 @@ def core_alphabet(game):
         ("loc", "off>", ("offset", "length"), "*", 1.5),
         ("loc", "all", ("offset",), "+", 0.25),
         ("prop", "offset", "*", 1.5),
+        ("inc", "overlap", "offset", "arange", 0),
         ("inc", "hits", "offset", "+", 5),
         ("inc", "hits", "column", "=", 3),
         ("inc", "notes", "offset", "+", 5),
@@ -255,6 +263,7 @@ def twin_apply(m, tw, op, mask=None):
     _, name, p, o, a = op
     inc = base_types()[name]
     anyhas = False
+    pos = 0
     for k, l in m.objs.items():
         if isinstance(l, inc):
             if p in _cols(m, k):
@@ -262,8 +271,9 @@ def twin_apply(m, tw, op, mask=None):
             for r in tw[k]:
                 total += 1
                 if p in r:
-                    r[p] = apply_val(r[p], o, a)
+                    r[p] = apply_val(r[p], "+", pos) if o == "arange" else apply_val(r[p], o, a)
                     touched += 1
+                pos += 1
         else:
             total += len(tw[k])
     return anyhas, 0 < touched < total
@@ -304,7 +314,12 @@ def lib_apply(m, op, stacker=None, mask=None):
         return s
     _, name, p, o, a = op
     s = m.stack(base_types()[name])
-    if o == "+":
+    if o == "arange":
+        import numpy as np
+
+        col = getattr(s, p)
+        setattr(s, p, col + np.arange(len(col)))
+    elif o == "+":
         setattr(s, p, getattr(s, p) + a)
     elif o == "*":
         setattr(s, p, getattr(s, p) * a)
